@@ -194,6 +194,41 @@ def suite():
         print(r["suite"], r["file"].split("/")[-1], r["line"], r["op"], "|", r["after"][:100], flush=True)
 
 
+def second_pass():
+    """survivors whose file mapping did not include the property that owns them, or that
+    survived before the harness was strengthened: re-run against a wider list of checks"""
+    env = "VERIF_EVIDENCE_DIR=/var/tmp/mbn-selftest-evidence "
+    res = [json.loads(l) for l in open("/verif/mutation/results.jsonl")]
+    want = {("state.rs", 102), ("state.rs", 116), ("state.rs", 125), ("state.rs", 138), ("dist.rs", 256),
+            ("dist.rs", 257), ("dist.rs", 258), ("dist.rs", 219), ("dist.rs", 210), ("machine.rs", 86),
+            ("framework.rs", 131), ("lib.rs", 586), ("counter.rs", 58), ("counter.rs", 68), ("counter.rs", 78)}
+    out_path = "/verif/mutation/second_pass.jsonl"
+    for r in res:
+        if r["result"] != "survived" or (r["file"].split("/")[-1], r["line"]) not in want:
+            continue
+        site = dict(file=r["file"], line=r["line"], col=r["col"], op=r["op"])
+        for rx, rep, name in OPS:
+            if name == r["op"]:
+                site["rx"], site["rep"] = rx, rep
+        if apply(site) is None:
+            continue
+        checks = ["C19", "C15"] if "simulator" in r["file"] else ["C01", "C05", "C13", "C08", "C11"]
+        rec = dict(r); rec["ran2"] = []; rec["result2"] = "survived"
+        rc, out = sh("cd /verif && ./check --build")
+        if rc == 0:
+            for p in checks:
+                rc, out = sh(env + f"/verif/check {p} quick", timeout=900)
+                rec["ran2"].append([p, rc])
+                if rc == 1:
+                    cls = [l for l in out.split("\n") if l.startswith("  class")]
+                    rec["result2"] = "caught"; rec["by2"] = p; rec["class2"] = cls[0][:160] if cls else ""
+                    break
+        revert()
+        open(out_path, "a").write(json.dumps(rec) + "\n")
+        print(rec["result2"], rec.get("by2", ""), r["file"].split("/")[-1], r["line"], r["op"], "|", r["after"][:80], flush=True)
+    sh("cd /verif && ./check --build")
+
+
 if __name__ == "__main__":
     if sys.argv[1] == "list":
         ss = sites()
@@ -203,3 +238,5 @@ if __name__ == "__main__":
         run(int(sys.argv[2]), int(sys.argv[3]) if len(sys.argv) > 3 else 1)
     elif sys.argv[1] == "suite":
         suite()
+    elif sys.argv[1] == "second":
+        second_pass()
